@@ -136,6 +136,17 @@ structure State where
   reloads. It differs from `registry` after a registration of an already-registered database was
   unwound because persisting failed (`register_db` removes the name from the in-memory registry). -/
   durableRegistry : List String
+  /-- the key map as last persisted (`server:api_keys` in the primary's metadata object) -/
+  durableBound : List (String × String)
+  /-- the primary `AndaDB`'s *in-memory* copy of the two extensions: `save_extension` inserts the new
+  value here first and then writes the whole metadata object (`flush_metadata`); when that PUT fails
+  the copy keeps the value, and the next successful PUT of the object — whoever asks for it —
+  persists it. -/
+  extBound : List (String × String)
+  extRegistry : List String
+  /-- an armed single-shot storage fault: the PUT of the primary's metadata object fails after this
+  many more such PUTs succeeded (`none` = no fault armed). An input of the model, like `fresh`. -/
+  faultIn : Option Nat
 deriving DecidableEq, Repr
 
 def lookup : List (String × String) → String → Option String
@@ -157,7 +168,7 @@ def delName (xs : List String) (n : String) : List String :=
 /-- State after `AppState::connect` on an empty store. -/
 def init (cfg : Cfg) : State :=
   { bound := [], opened := [cfg.primary], registry := [], stored := [cfg.primary], primaryRO := false,
-    durableRegistry := [] }
+    durableRegistry := [], durableBound := [], extBound := [], extRegistry := [], faultIn := none }
 
 /-- `AppState::authorize`: the binding is looked up by the scope's name only. -/
 def authorizeState (cfg : Cfg) (s : State) (scope : Scope) (presented : Option String) :
@@ -198,9 +209,42 @@ inductive OpenMode where
   | create | open | connect
 deriving DecidableEq, Repr
 
-/-- `register_db` (no shutdown race; the only storage failure modelled is the read-only primary:
-the engine has then already created/opened the database when binding the key or persisting the
-registry fails, everything in memory is unwound, and a created database stays in the store). -/
+/-! ### persistence: in-memory update, then one PUT of the primary's metadata object -/
+
+/-- one PUT of the primary database's metadata object (`flush_metadata`): it carries BOTH extensions
+as the engine holds them in memory; an armed fault makes it fail (nothing is written) -/
+def metaPut (s : State) : State × Bool :=
+  match s.faultIn with
+  | some 0 => ({ s with faultIn := none }, false)
+  | some (k + 1) =>
+    ({ s with faultIn := some k, durableBound := s.extBound, durableRegistry := s.extRegistry }, true)
+  | none => ({ s with durableBound := s.extBound, durableRegistry := s.extRegistry }, true)
+
+/-- `persist_api_keys`: `save_extension_from(DB_API_KEYS_KEY, &keys)` — refused up front by a read-only
+primary (nothing changes); otherwise the engine's copy takes the value, then the PUT. There is no
+"unchanged, skip" path. -/
+def persistKeys (s : State) : State × Bool :=
+  if s.primaryRO then (s, false) else metaPut { s with extBound := s.bound }
+
+/-- `persist_registry`. -/
+def persistRegistry (s : State) : State × Bool :=
+  if s.primaryRO then (s, false) else metaPut { s with extRegistry := s.registry }
+
+/-- `store_api_key`: change the in-memory map, persist, restore the previous in-memory value when
+persisting failed (the engine's copy is NOT restored). -/
+def storeApiKey (s : State) (name : String) (v : Option String) : State × Bool :=
+  let m := match v with
+    | some k => setKey s.bound name k
+    | none => eraseKey s.bound name
+  match persistKeys { s with bound := m } with
+  | (s', true) => (s', true)
+  | (s', false) => ({ s' with bound := s.bound }, false)
+
+/-- `register_db` (no shutdown race). Storage failures modelled: a read-only primary and an armed
+fault on the metadata PUT. The engine has already created/opened the database when binding the key
+or persisting the registry fails; everything in memory is unwound (the name also leaves the
+in-memory registry, even if it was registered before), a created database stays in the store, and
+a binding made a moment ago is undone with a second `store_api_key` (best effort). -/
 def registerDb (cfg : Cfg) (s : State) (mode : OpenMode) (name : String) (apiKey : Option String) :
     State × Except ApiError RootResult :=
   if !validName name then (s, .error .invalidName) else
@@ -221,25 +265,34 @@ def registerDb (cfg : Cfg) (s : State) (mode : OpenMode) (name : String) (apiKey
       | .create, true => (s, .error (.dbExists name))
       | .open, false => (s, .error (.dbNotFound name))
       | _, _ =>
-        if s.primaryRO then
-          -- unwound: the name also leaves the in-memory registry, even if it was registered before
-          ({ s with stored := addName s.stored name, registry := delName s.registry name }, .error .internal)
-        else
-          let bound := match apiKey with
-            | some k => setKey s.bound name k
-            | none => s.bound
-          ({ s with bound := bound, opened := addName s.opened name, registry := addName s.registry name,
-                    stored := addName s.stored name, durableRegistry := addName s.registry name },
-           .ok (.metadata name))
+        let s0 := { s with stored := addName s.stored name }
+        -- bind the key while the database is still invisible
+        match (match apiKey with
+               | some k => storeApiKey s0 name (some k)
+               | none => (s0, true)) with
+        | (s1, false) =>
+          -- (the registry is untouched on this path)
+          (s1, .error .internal)
+        | (s1, true) =>
+          match persistRegistry { s1 with opened := addName s1.opened name, registry := addName s1.registry name } with
+          | (s2, true) => (s2, .ok (.metadata name))
+          | (s2, false) =>
+            let s3 := { s2 with opened := delName s2.opened name, registry := delName s2.registry name }
+            match apiKey with
+            | some _ => ((storeApiKey s3 name none).1, .error .internal)
+            | none => (s3, .error .internal)
 
 /-- `close_db`: the binding is kept on purpose. When the registry cannot be persisted the database
 is closed all the same, stays registered, and the caller gets the persistence error. -/
 def closeDb (cfg : Cfg) (s : State) (name : String) : State × Except ApiError RootResult :=
   if name == cfg.primary then (s, .error .primaryCannotClose)
   else if !s.opened.contains name && !s.registry.contains name then (s, .error (.dbNotFound name))
-  else if s.primaryRO then ({ s with opened := delName s.opened name }, .error .internal)
-  else ({ s with opened := delName s.opened name, registry := delName s.registry name,
-                 durableRegistry := delName s.registry name }, .ok .unit)
+  else
+    let registered := s.registry.contains name
+    match persistRegistry { s with opened := delName s.opened name, registry := delName s.registry name } with
+    | (s1, true) => (s1, .ok .unit)
+    | (s1, false) =>
+      ((if registered then { s1 with registry := addName s1.registry name } else s1), .error .internal)
 
 /-- `require_known_db`. -/
 def knownDb (s : State) (name : String) : Bool :=
@@ -254,17 +307,19 @@ def setDbApiKey (cfg : Cfg) (s : State) (name : String) (key : Option String) (f
   | .error e => (s, .error e)
   | .ok () =>
     if !knownDb s name then (s, .error (.dbNotFound name))
-    else if s.primaryRO then (s, .error .internal)   -- `store_api_key` restores the previous value
-    else ({ s with bound := setKey s.bound name k }, .ok (.keySet name key.isNone))
+    else match storeApiKey s name (some k) with
+      | (s', true) => (s', .ok (.keySet name key.isNone))
+      | (s', false) => (s', .error .internal)
 
-/-- `remove_db_api_key`. -/
+/-- `remove_db_api_key`: answers `false` WITHOUT persisting when the in-memory map has no binding. -/
 def removeDbApiKey (s : State) (name : String) : State × Except ApiError RootResult :=
   if !knownDb s name then (s, .error (.dbNotFound name))
   else match lookup s.bound name with
     | none => (s, .ok (.removed false))
     | some _ =>
-      if s.primaryRO then (s, .error .internal)
-      else ({ s with bound := eraseKey s.bound name }, .ok (.removed true))
+      match storeApiKey s name none with
+      | (s', true) => (s', .ok (.removed true))
+      | (s', false) => (s', .error .internal)
 
 /-- `AppState::info` / `scoped_info`. -/
 def scopedInfo (cfg : Cfg) (s : State) (p : Principal) (dbName : String) : RootResult :=
@@ -590,23 +645,36 @@ def touchedDb (resp : Response) : Option String :=
   | .handler n _ _ _ _ => some n
   | _ => none
 
-/-- A clean stop followed by `AppState::connect` over the same store with the same options:
-the primary and every registered database that still exists are reopened, bindings are reloaded. -/
-def restart (cfg : Cfg) (s : State) : State :=
-  { s with opened := cfg.primary :: (s.durableRegistry.filter (fun n => !(n == cfg.primary) && s.stored.contains n)),
+/-- what `AppState::connect` loads from the store -/
+def loadDurable (cfg : Cfg) (s : State) : State :=
+  { s with bound := s.durableBound,
            registry := s.durableRegistry.filter (fun n => !(n == cfg.primary)),
-           primaryRO := false }
+           opened := cfg.primary :: (s.durableRegistry.filter (fun n => !(n == cfg.primary) && s.stored.contains n)),
+           extBound := s.durableBound, extRegistry := s.durableRegistry,
+           primaryRO := false, faultIn := none }
 
-/-- What can happen to a running service: a request (from anybody, about anything), or a clean
-restart. -/
+/-- The process dies: nothing is flushed; the next one starts from what is durable. -/
+def crash (cfg : Cfg) (s : State) : State := loadDurable cfg s
+
+/-- A clean stop (`shutdown` closes the primary, whose `close` writes the metadata object once more —
+with whatever the engine's copy of the extensions holds) followed by `AppState::connect`. -/
+def restart (cfg : Cfg) (s : State) : State :=
+  loadDurable cfg { s with durableBound := s.extBound, durableRegistry := s.extRegistry }
+
+/-- What can happen to a running service: a request (from anybody, about anything), a clean restart,
+a crash, a storage fault being armed. -/
 inductive Event where
   | request (r : Request)
   | restart
+  | crash
+  | fault (k : Nat)
 deriving Repr
 
 def stepEvent (cfg : Cfg) (s : State) : Event → State
   | .request r => (handle cfg s r).1
   | .restart => restart cfg s
+  | .crash => crash cfg s
+  | .fault k => { s with faultIn := some k }
 
 /-- The state after a whole history. -/
 def run (cfg : Cfg) (s : State) : List Event → State
